@@ -37,10 +37,12 @@ from vlib import Outcome, Sub, findings
 
 PROPERTY = "C15"
 RULE = (
-    "coordinates of shapes (3,), (n,3), (m,n,3) with extents 1e-2..1e3 (float32 values), "
+    "coordinates of shapes (3,), (n,3), (m,n,3) with extents 1e-2..1e3 (float32 values; measure: also 1e-9..1e-4), "
     "rotations from unit quaternions, boxes from unit-cell parameters (orthorhombic, cubic, "
-    "monoclinic, hexagonal, rhombohedral, triclinic; heights >= 0.2 x length; optionally rotated "
-    "as a whole; per-model boxes for stacks), points placed by fractional coordinate + integer "
+    "monoclinic, hexagonal, rhombohedral, triclinic with heights >= 0.2 x length, strongly skewed "
+    "with angles 15..165 degrees and heights >= 0.05 x length; optionally rotated as a whole, box "
+    "vectors optionally in another order / one of them reversed = left-handed boxes; per-model "
+    "boxes for stacks), points placed by fractional coordinate + integer "
     "lattice shift in -2..2, molecules = paths / trees / rings with bonds < quarter of the smallest "
     "box height and an independent lattice shift per atom.  Non-trivial = (triclinic box or >= 2 "
     "models) and at least one pair whose minimum image is not the plain difference (periodic "
@@ -167,7 +169,8 @@ def cell_params(cell):
     """Plain-data cell -> (la, lb, lc, alpha, beta, gamma), box64 (unrotated), kind label.
 
     The angle deviations from 90 degrees are shrunk (x0.7 repeatedly) until the
-    cell has positive volume and every height is >= 0.2 x the vector length."""
+    cell has positive volume and every height is >= 0.2 x the vector length
+    (0.05 x for the kind "skew")."""
     s = 10.0 ** cell["exp"]
     r = cell["rel"]
     u = cell["ang"]
@@ -186,12 +189,15 @@ def cell_params(cell):
         dev = [28.0 * u[0]] * 3
     elif kind == "tri":
         dev = [50.0 * u[0], 50.0 * u[1], 50.0 * u[2]]
+    elif kind == "skew":  # strongly skewed: angles 15..165 degrees, flat cells allowed
+        dev = [75.0 * u[0], 75.0 * u[1], 75.0 * u[2]]
+    min_height = 0.05 if kind == "skew" else 0.2
     box = None
     angles = None
     for _ in range(60):
         angles = [HALF_PI if d == 0 else math.radians(90.0 + d) for d in dev]
         box = box_from_params(la, lb, lc, *angles)
-        if box is not None and float(np.min(heights(box) / np.array([la, lb, lc]))) >= 0.2:
+        if box is not None and float(np.min(heights(box) / np.array([la, lb, lc]))) >= min_height:
             break
         dev = [d * 0.7 for d in dev]
     else:  # pragma: no cover - 0.7**60 is 0
@@ -201,13 +207,36 @@ def cell_params(cell):
     return (la, lb, lc, angles[0], angles[1], angles[2]), box, ortho
 
 
+def _params_of(box):
+    """Textbook cell parameters of arbitrary box vectors (float64)."""
+    a, b, c = box
+
+    def ang(x, y):
+        return math.atan2(float(np.linalg.norm(np.cross(x, y))), float(np.dot(x, y)))
+
+    return (float(np.linalg.norm(a)), float(np.linalg.norm(b)), float(np.linalg.norm(c)), ang(b, c), ang(a, c), ang(a, b))
+
+
 class Box:
     """One box as biotite receives it (dtype-rounded) with its float64 view."""
 
-    def __init__(self, cell, quat, dtype):
+    def __init__(self, cell, quat, dtype, perm=None):
         self.params, raw, self.ortho = cell_params(cell)
+        self.kind = cell["kind"]
         self.rotated = quat is not None and float(np.linalg.norm(quat)) >= 1e-3 and list(quat[1:]) != [0, 0, 0]
         raw = raw @ rot_from_quat(quat).T
+        self.permuted = self.left_handed = False
+        if perm is not None:
+            # the same lattice given by other box vectors: rows in another order and / or one
+            # vector reversed (a left-handed box when the parity is odd)
+            order = list(perm["order"])
+            raw = raw[order]
+            if perm["flip"] is not None:
+                raw[perm["flip"]] = -raw[perm["flip"]]
+            self.permuted = order != [0, 1, 2] or perm["flip"] is not None
+            self.left_handed = float(np.linalg.det(raw)) < 0
+            if self.permuted:
+                self.params = _params_of(raw)
         self.given = raw.astype(np.float32 if dtype == "f4" else np.float64)
         self.b = self.given.astype(np.float64)
         self.inv = np.linalg.inv(self.b)
@@ -242,9 +271,11 @@ class Box:
         return np.max(np.maximum(np.maximum(-f, f - 1.0), 0.0) * self.h, axis=-1)
 
 
-def _cmp(o, got, want, tol, clause, what, wrap=False):
+def _cmp(o, got, want, tol, clause, what, wrap=False, soft=None):
     """|got - want| <= tol elementwise; elements with tol = inf or non-finite
-    reference are not decided."""
+    reference are not decided.  ``soft`` (<= tol) is the bound an evaluation in the
+    precision of the *arguments* would meet: elements between soft and tol are
+    counted as ambiguous (biotite's working precision is float32 by design)."""
     got = np.asarray(got, dtype=float)
     want = np.asarray(want, dtype=float)
     if got.shape != want.shape:
@@ -257,6 +288,9 @@ def _cmp(o, got, want, tol, clause, what, wrap=False):
             d = (d + math.pi) % (2 * math.pi) - math.pi
         decided = np.isfinite(tol) & np.isfinite(want)
         bad = decided & ~(np.abs(d) <= tol)
+        if soft is not None:
+            soft = np.broadcast_to(np.asarray(soft, dtype=float), want.shape)
+            o.ambiguous += int((decided & ~bad & ~(np.abs(d) <= soft)).sum())
     o.ambiguous += int((~decided).sum())
     if bad.any():
         i = tuple(int(x) for x in np.argwhere(bad)[0])
@@ -281,7 +315,7 @@ def st_quat(none_ok=True):
     return st.one_of(st.none(), q, q) if none_ok else q
 
 
-_KINDS = ["ortho", "ortho", "cubic", "mono", "hex", "rhombo", "tri", "tri", "tri"]
+_KINDS = ["ortho", "ortho", "cubic", "mono", "hex", "rhombo", "tri", "tri", "tri", "skew"]
 
 
 @st.composite
@@ -298,7 +332,24 @@ def _boxes(case):
     dtype = case["box_dtype"]
     if case.get("container") == "atoms_box":
         dtype = "f4"  # the box attribute of an AtomArray is always float32
-    return [Box(c, case["box_rot"], dtype) for c in case["cells"]]
+    return [Box(c, case["box_rot"], dtype, case.get("box_perm")) for c in case["cells"]]
+
+
+@st.composite
+def st_box_perm(draw):
+    """None (3 of 4) or another choice of box vectors for the same lattice."""
+    if draw(st.integers(0, 3)) != 3:
+        return None
+    return {"order": draw(st.permutations([0, 1, 2])), "flip": draw(st.sampled_from([None, None, 0, 1, 2]))}
+
+
+def _box_labels(o, boxes):
+    if any(b.permuted for b in boxes):
+        o.label("box_vectors_permuted_or_reversed")
+    if any(b.left_handed for b in boxes):
+        o.label("left_handed_box")
+    if any(b.kind == "skew" for b in boxes):
+        o.label("skewed_cell")
 
 
 def _atoms(coord32, box=None, bonds=None):
@@ -334,12 +385,19 @@ def st_measure(tier):
     def gen(draw):
         m = draw(st.integers(1, 3))
         n = draw(st.integers(4, 9 if big else 6))
+        # length unit: extents 1e-2..1e3, and (one case in five) the same geometry expressed in a
+        # much smaller unit (extents 1e-9..1e-4: all vectors far below any absolute cutoff)
+        # (one_of() over equal strategies does not weight them: the choice is drawn as an integer)
+        small_unit = draw(st.integers(0, 4)) == 4
+        ranks = draw(st.lists(st.integers(1, 3), min_size=4, max_size=4))
+        if draw(st.integers(0, 9)) == 9:
+            ranks = [ranks[0]] * 4  # all arguments of the same rank
         return {
-            "exp": draw(st.floats(-2.0, 3.0, allow_nan=False)),
+            "exp": draw(st.floats(-9.0, -4.0, allow_nan=False) if small_unit else st.floats(-2.0, 3.0, allow_nan=False)),
             "m": m,
             "n": n,
             "pts": draw(st_vec(m * n * 3)),
-            "ranks": draw(st.lists(st.integers(1, 3), min_size=4, max_size=4)),
+            "ranks": ranks,
             "quat": draw(st_quat(none_ok=False)),
             "trans": draw(st_vec(3, -2.0, 2.0)),
             "idx": draw(st.lists(st.lists(st.integers(0, 8), min_size=4, max_size=4), min_size=1, max_size=5)),
@@ -420,6 +478,8 @@ def run_measure(case):
     ranks = case["ranks"]
     cont = case["container"]
     o.label(f"ranks={''.join(map(str, sorted(ranks)))}", cont, f"m={m}")
+    if case["exp"] < -3.5:
+        o.label("small_length_unit")
     if case["degenerate"]:
         o.label(case["degenerate"])
 
@@ -492,7 +552,8 @@ def run_measure(case):
     _cmp(o, indexed["dihedral"], plain["dihedral"], dihedral_tol(*r["dihedral_tol"]), "index_equals_plain", "index_dihedral", wrap=True)
     _cmp(o, indexed["dist"], r["dist"], 8 * EPS32 * r["dist"] + TINY, "distance_textbook", "index_distance vs formula")
     _cmp(o, indexed["dihedral"], r["dihedral"], dihedral_tol(*r["dihedral_tol"]), "dihedral_textbook_iupac_sign", "index_dihedral vs formula", wrap=True)
-    o.expect_raises(ValueError, lambda: struc.index_distance(src, idx[:, :3]), "index_shape_rejected", "index_distance with (k,3) indices")
+    # index tuples of the wrong width (documented shape (k,2)): an error, whose type no docstring names
+    o.expect_raises(Exception, lambda: struc.index_distance(src, idx[:, :3]), "index_shape_rejected", "index_distance with (k,3) indices")
 
     if decided:
         o.label("dihedral_decided")
@@ -511,15 +572,19 @@ def st_periodic(tier):
     def gen(draw):
         m = draw(st.sampled_from([1, 1, 2, 3]))
         n = draw(st.integers(2, 8 if big else 5))
-        shared = m > 1 and draw(st.integers(0, 3)) == 0
+        shared = m > 1 and draw(st.integers(0, 2)) == 0
         nb = 1 if (m == 1 or shared) else m
         return {
             "cells": draw(st.lists(st_cell(), min_size=nb, max_size=nb)),
             "box_rot": draw(st_quat()),
+            "box_perm": draw(st_box_perm()),
             "box_dtype": draw(st.sampled_from(["f4", "f4", "f8"])),
             "m": m,
             "n": n,
             "shared_box": shared,
+            # all atoms within +-near/2 (in fractions) of atom 0: pairs in the range where the
+            # shortest image of a triclinic box is unique
+            "near": draw(st.sampled_from([None, None, None, 0.4, 0.1])),
             "frac": draw(st_vec(m * n * 3, 0.0, 1.0)),
             "shift": draw(st.lists(st.integers(-2, 2), min_size=m * n * 3, max_size=m * n * 3)),
             "idx": draw(st.lists(st.lists(st.integers(0, 7), min_size=4, max_size=4), min_size=1, max_size=5)),
@@ -534,6 +599,8 @@ def _periodic_coords(case, boxes):
     """(m,n,3) float32 coordinates: (fraction + integer shift) @ box of the model."""
     m, n = case["m"], case["n"]
     frac = np.array(case["frac"], dtype=float).reshape(m, n, 3)
+    if case.get("near") is not None:
+        frac[:, 1:] = frac[:, :1] + (frac[:, 1:] - 0.5) * case["near"]
     if case.get("tie") is not None and n >= 2:
         frac[:, 1] = frac[:, 0]
         frac[:, 1, case["tie"]] += 0.5
@@ -563,6 +630,7 @@ def run_periodic(case):
     box = _given_box(case, boxes)
     idx = np.array(case["idx"], dtype=int) % n
     cols32 = [coords[..., idx[:, k], :] for k in range(4)]
+    cont = case["container"]
 
     if isinstance(box, np.ndarray) and (n + m + len(case["idx"])) % 2 == 0:
         # history: the same box array object was used for an earlier periodic call with other
@@ -570,10 +638,12 @@ def run_periodic(case):
         o.label("box_object_reused")
         real_box = box.copy()
         box[...] = real_box * 1.75
-        with np.errstate(all="ignore"):
-            struc.displacement(cols32[0], cols32[1], box)
-            struc.distance(cols32[0], cols32[1], box)
-        box[...] = real_box
+        try:
+            with np.errstate(all="ignore"):
+                struc.displacement(cols32[0], cols32[1], box)
+                struc.distance(cols32[0], cols32[1], box)
+        finally:
+            box[...] = real_box
     with np.errstate(all="ignore"):
         disp = np.asarray(struc.displacement(cols32[0], cols32[1], box), dtype=float)
         disp23 = np.asarray(struc.displacement(cols32[1], cols32[2], box), dtype=float)
@@ -587,6 +657,11 @@ def run_periodic(case):
 
     any_triclinic = False
     any_wrapped = False
+    tri_pairs = tri_decided = 0
+    # per model, for the comparisons between different entry points further down: tolerance
+    # through fractional space, tolerance of |displacement(1,2)| (inf where the shortest image
+    # is not stated), uniqueness of the image vector, angle / dihedral tolerances
+    per_model = {"tol": [], "ntol": [], "unique": [], "a_tol": [], "d_tol": []}
     for j in range(m):
         b = boxes[j if len(boxes) > 1 else 0]
         any_triclinic |= not b.ortho
@@ -595,7 +670,7 @@ def run_periodic(case):
         tol = b.tol(smag)
 
         def one(dj, x0, x1, what):
-            nonlocal any_wrapped
+            nonlocal any_wrapped, tri_pairs, tri_decided
             plain = x1 - x0
             k, res = b.lattice(dj - plain)
             _cmp(o, res, np.zeros_like(res), tol, "displacement_differs_by_lattice_vector", f"{what} model {j}")
@@ -606,17 +681,19 @@ def run_periodic(case):
             else:
                 # stated only where the shortest image is unique: below half the smallest height
                 ntol = np.where(mi_norm < 0.5 * b.hmin - tol, tol, np.inf)
+                tri_pairs += mi_norm.size
+                tri_decided += int(np.isfinite(ntol).sum())
             _cmp(o, got_norm, mi_norm, ntol, "displacement_is_shortest_image", f"|{what}| model {j}")
             unique = mi_norm < 0.45 * b.hmin
             _cmp(o, dj, mi_vec, np.where(unique, tol, np.inf)[..., None] * np.ones(3), "displacement_is_shortest_image", f"{what} vector model {j}")
             if (np.abs(b.lattice(mi_vec - plain)[0]).sum(axis=-1) > 0).any():
                 any_wrapped = True
-            return mi_vec, mi_norm, unique
+            return mi_vec, mi_norm, unique, ntol
 
         dj = disp[j] if stack else disp
-        v12, n12, u12 = one(dj, x[0], x[1], "displacement(1,2)")
-        v23, n23, u23 = one(disp23[j] if stack else disp23, x[1], x[2], "displacement(2,3)")
-        v34, n34, u34 = one(disp34[j] if stack else disp34, x[2], x[3], "displacement(3,4)")
+        v12, n12, u12, nt12 = one(dj, x[0], x[1], "displacement(1,2)")
+        v23, n23, u23, _ = one(disp23[j] if stack else disp23, x[1], x[2], "displacement(2,3)")
+        v34, n34, u34, _ = one(disp34[j] if stack else disp34, x[2], x[3], "displacement(3,4)")
         _cmp(o, (dist[j] if stack else dist), _norm(dj), 8 * EPS32 * _norm(dj) + TINY, "distance_is_norm_of_displacement", f"distance(box) model {j}")
         # angle at atom 2 between the images of 1 and 3; dihedral over the image bond vectors
         a_ref, sin = ref_angle_from_vectors(-v12, v23)
@@ -625,13 +702,43 @@ def run_periodic(case):
         d_ref, s1, s2 = ref_dihedral_from_vectors(v12, v23, v34)
         d_tol = np.where(u12 & u23 & u34, dihedral_tol(s1, s2, n12, n23, n34, vec_err=tol), np.inf)
         _cmp(o, (dih[j] if stack else dih), d_ref, d_tol, "dihedral_periodic_textbook", f"dihedral(box) model {j}", wrap=True)
+        per_model["tol"].append(np.full(n12.shape, tol))
+        per_model["ntol"].append(nt12)
+        per_model["unique"].append(u12)
+        per_model["a_tol"].append(a_tol)
+        per_model["d_tol"].append(d_tol)
+    pm = {key: (np.stack(val) if stack else val[0]) for key, val in per_model.items()}
+
+    def same_image(got, ref, what, clause, sl=()):
+        """Two evaluations of the same periodic displacement: they differ by a lattice vector of
+        the model's box (which image is taken is fixed only where it is unique); equal vectors
+        where the shortest image is unique."""
+        got = np.asarray(got, dtype=float)
+        if not o.check(got.shape == ref.shape, clause, f"{what}: shape {got.shape}, expected {ref.shape}"):
+            return
+        for j in range(m):
+            b = boxes[j if len(boxes) > 1 else 0]
+            g, r_ = (got[j], ref[j]) if stack else (got, ref)
+            t2 = 2 * (pm["tol"][j] if stack else pm["tol"])[sl]
+            un = (pm["unique"][j] if stack else pm["unique"])[sl]
+            _, res = b.lattice(g - r_)
+            _cmp(o, res, np.zeros_like(res), t2, clause, f"{what} model {j}: not a lattice vector away from displacement()")
+            _cmp(o, g, r_, np.where(un, t2, np.inf)[..., None] * np.ones(3), clause, f"{what} model {j}")
 
     # single atoms: shape (3,) against the rows above
     with np.errstate(all="ignore"):
         if not stack:
             for r in range(min(2, len(idx))):
                 d1 = struc.displacement(cols32[0][r], cols32[1][r], box)
-                _cmp(o, d1, disp[r], boxes[0].tol(float(np.abs(c32).max()), c=4.0), "displacement_shape_3", f"displacement of two (3,) arrays, row {r}")
+                same_image(d1, disp[r], f"displacement of two (3,) arrays, row {r}", "displacement_shape_3", sl=r)
+            # distance / angle / dihedral of single atoms with a box
+            one_atom = [c[0] for c in cols32]
+            if cont != "ndarray":
+                one_atom = [struc.Atom(c) for c in one_atom]
+                o.label("single_atoms_with_box_as_Atom")
+            _cmp(o, struc.distance(one_atom[0], one_atom[1], box), np.asarray(dist, dtype=float)[0], 2 * pm["ntol"][0], "displacement_shape_3", "distance of two single atoms with a box")
+            _cmp(o, struc.angle(*one_atom[:3], box), np.asarray(ang, dtype=float)[0], 2 * pm["a_tol"][0], "displacement_shape_3", "angle of three single atoms with a box")
+            _cmp(o, struc.dihedral(*one_atom, box), np.asarray(dih, dtype=float)[0], 2 * pm["d_tol"][0], "displacement_shape_3", "dihedral of four single atoms with a box", wrap=True)
             dmix = struc.displacement(cols32[0][0], cols32[1], box)
             want = disp.copy()
             # reference for the mixed call: lattice + shortest image of its own plain difference
@@ -659,8 +766,13 @@ def run_periodic(case):
                     mv, mn = b.min_image(plain)
                     _cmp(o, _norm(dmix[j]), mn, np.where(b.ortho | (mn < 0.5 * b.hmin - tolm), tolm, np.inf), "displacement_is_shortest_image", f"displacement((k,3), (m,k,3), box) model {j}")
 
+        if cont != "ndarray":
+            # the plain functions with AtomArray / AtomArrayStack arguments and a box
+            wrapped_args = [_atoms(c) for c in cols32]
+            same_image(struc.displacement(wrapped_args[0], wrapped_args[1], box), disp, "displacement(AtomArray(Stack), ..., box)", "displacement_atoms_with_box")
+            _cmp(o, struc.dihedral(*wrapped_args, box), np.asarray(dih, dtype=float), 2 * pm["d_tol"], "displacement_atoms_with_box", "dihedral(AtomArray(Stack), ..., box)", wrap=True)
+
     # index variants with periodic=True
-    cont = case["container"]
     if cont == "ndarray":
         src, kw = coords, {"periodic": True, "box": box}
     elif cont == "atoms_box":
@@ -677,16 +789,42 @@ def run_periodic(case):
         i_dist = struc.index_distance(src, idx[:, :2], **kw)
         i_ang = struc.index_angle(src, idx[:, :3], **kw)
         i_dih = struc.index_dihedral(src, idx, **kw)
-        np_dist = struc.index_distance(src, idx[:, :2], periodic=False, box=box)
-        plain_dist = struc.distance(cols32[0], cols32[1])
-    tight = 4 * EPS32 * (np.abs(disp).max(initial=0.0) + TINY)
-    _cmp(o, i_disp, disp, tight, "index_equals_plain_periodic", f"index_displacement ({cont})")
-    _cmp(o, i_dist, dist, tight, "index_equals_plain_periodic", f"index_distance ({cont})")
-    fin = np.isfinite(np.asarray(ang, dtype=float))
-    _cmp(o, i_ang, ang, np.where(fin, 1e-6, np.inf), "index_equals_plain_periodic", f"index_angle ({cont})")
-    fin = np.isfinite(np.asarray(dih, dtype=float))
-    _cmp(o, i_dih, dih, np.where(fin, 1e-6, np.inf), "index_equals_plain_periodic", f"index_dihedral ({cont})", wrap=True)
-    _cmp(o, np_dist, plain_dist, 4 * EPS32 * np.asarray(plain_dist, dtype=float) + TINY, "periodic_false_ignores_box", "index_distance(periodic=False, box=...)")
+        plain_dist = np.asarray(struc.distance(cols32[0], cols32[1]), dtype=float)
+        default_dist = struc.index_distance(src, idx[:, :2])
+        np_dist = struc.index_distance(src, idx[:, :2], periodic=False)
+    # index variants against the coordinate based ones: both are correct evaluations of the same
+    # quantity; they need not run through the same code, so each may carry its own rounding and,
+    # where the image is not unique (half-box ties, triclinic pairs beyond the stated range), its
+    # own choice of the image
+    same_image(i_disp, disp, f"index_displacement ({cont})", "index_equals_plain_periodic")
+    _cmp(o, i_dist, dist, 2 * pm["ntol"], "index_equals_plain_periodic", f"index_distance ({cont})")
+    _cmp(o, i_ang, ang, 2 * pm["a_tol"], "index_equals_plain_periodic", f"index_angle ({cont})")
+    _cmp(o, i_dih, dih, 2 * pm["d_tol"], "index_equals_plain_periodic", f"index_dihedral ({cont})", wrap=True)
+    # "By default, periodicity is ignored" - whether or not the structure carries a box
+    ptol = 8 * EPS32 * plain_dist + TINY
+    _cmp(o, default_dist, plain_dist, ptol, "index_not_periodic_by_default", f"index_distance({cont}, indices)")
+    _cmp(o, np_dist, plain_dist, ptol, "index_not_periodic_by_default", f"index_distance({cont}, indices, periodic=False)")
+    # periodic=False together with an explicit box: what that means is not stated anywhere.
+    # Accepted: the box is ignored, the box is used (explicit box implies periodic), or an error
+    try:
+        with np.errstate(all="ignore"):
+            contra = np.asarray(struc.index_distance(src, idx[:, :2], periodic=False, box=box), dtype=float)
+    except Exception:
+        o.label("periodic_false_with_box:raises")
+    else:
+        if contra.shape != plain_dist.shape:
+            o.fail("periodic_false_with_box", f"index_distance(periodic=False, box=...) has shape {contra.shape}, expected {plain_dist.shape}")
+        else:
+            with np.errstate(all="ignore"):
+                as_plain = bool((np.abs(contra - plain_dist) <= ptol).all())
+                t_per = np.where(np.isfinite(pm["ntol"]), 2 * pm["ntol"], np.inf)
+                as_periodic = bool((np.abs(contra - np.asarray(dist, dtype=float)) <= t_per).all())
+            if as_plain:
+                o.label("periodic_false_with_box:box_ignored")
+            elif as_periodic:
+                o.label("periodic_false_with_box:box_used")
+            else:
+                o.fail("periodic_false_with_box", f"index_distance(periodic=False, box=...) = {contra.tolist()} is neither the plain distance {plain_dist.tolist()} nor the periodic one {np.asarray(dist).tolist()}")
 
     o.label("triclinic" if any_triclinic else "orthorhombic")
     o.label("stack_per_model_boxes" if len(boxes) > 1 else ("stack_shared_box" if stack else "single_model"))
@@ -697,6 +835,12 @@ def run_periodic(case):
         o.label("stack_mixed_ortho_triclinic")
     if case.get("tie") is not None:
         o.label("tie_half_box")
+    if case.get("near") is not None:
+        o.label("atoms_near_each_other")
+    if tri_pairs:
+        share = tri_decided / tri_pairs
+        o.label("tri_shortest_decided:" + ("none" if tri_decided == 0 else "some" if share < 1 else "all"))
+    _box_labels(o, boxes)
     o.label(cont, "box_" + case["box_dtype"])
     o.mark_nontrivial((any_triclinic or m >= 2) and any_wrapped)
     return o
@@ -715,6 +859,7 @@ def st_boxconv(tier):
         return {
             "cells": draw(st.lists(st_cell(), min_size=m, max_size=m)),
             "box_rot": draw(st_quat()),
+            "box_perm": draw(st_box_perm()),
             "box_dtype": draw(st.sampled_from(["f4", "f8"])),
             "coord_dtype": draw(st.sampled_from(["f4", "f8"])),
             "m": m,
@@ -742,11 +887,13 @@ def run_boxconv(case):
             continue
         v64 = np.asarray(v, dtype=float)
         lens = np.linalg.norm(v64, axis=1)
-        # biotite zeroes components below 1e-4 * (a+b+c): lengths change by <= that,
-        # angles by <= asin(1e-4 * (a+b+c) / length) per zeroed component (3 components)
-        snap = 1e-4 * (la + lb + lc)
-        ltol = 2 * snap + 16 * EPS32 * max(la, lb, lc)
-        atol_ = 4 * snap / min(la, lb, lc) + 64 * EPS32 / 0.2
+        # biotite zeroes box components that are tiny against the length of their vector (1e-6 x
+        # today; undocumented, 1e-5 x is allowed for here): a length changes by <= that, an angle
+        # by <= asin(1e-5) per zeroed component (at most 3 components, 2 vectors)
+        snap = 1e-5
+        ltol = 2 * snap * max(la, lb, lc) + 16 * EPS32 * max(la, lb, lc)
+        sin_min = min(math.sin(al), math.sin(be), math.sin(ga), 0.2)
+        atol_ = 8 * snap + 64 * EPS32 / sin_min
         _cmp(o, lens, [la, lb, lc], ltol, "vectors_from_unitcell_lengths", f"lengths of vectors_from_unitcell{p}")
 
         def ang(x, y):
@@ -754,7 +901,8 @@ def run_boxconv(case):
 
         got_ang = [ang(v64[1], v64[2]), ang(v64[0], v64[2]), ang(v64[0], v64[1])]
         _cmp(o, got_ang, [al, be, ga], atol_, "vectors_from_unitcell_angles", f"alpha(b,c), beta(a,c), gamma(a,b) of vectors_from_unitcell{p}")
-        o.check(float(np.linalg.det(v64)) > 0, "vectors_from_unitcell_right_handed", f"det <= 0 for {p}")
+        # handedness of the returned vectors is not documented: recorded, not judged
+        o.label("unitcell_vectors_right_handed" if float(np.linalg.det(v64)) > 0 else "unitcell_vectors_left_handed")
         back = struc.unitcell_from_vectors(v)
         _cmp(o, back[:3], [la, lb, lc], ltol, "unitcell_roundtrip", f"lengths unitcell_from_vectors(vectors_from_unitcell{p})")
         _cmp(o, back[3:], [al, be, ga], atol_, "unitcell_roundtrip", f"angles unitcell_from_vectors(vectors_from_unitcell{p})")
@@ -766,16 +914,20 @@ def run_boxconv(case):
     for b in boxes[:2]:
         la, lb, lc, al, be, ga = b.params
         got = struc.unitcell_from_vectors(b.given)
-        et = 64 * EPS32 if case["box_dtype"] == "f4" else 1e-9
-        _cmp(o, got[:3], [la, lb, lc], et * max(la, lb, lc), "unitcell_from_vectors_textbook", "lengths of a rotated box")
-        _cmp(o, got[3:], [al, be, ga], et / 0.2 * 8, "unitcell_from_vectors_textbook", "angles of a rotated box")
+        # the box of a structure is float32 by design: a float64 box may be evaluated in float32
+        # as well (results between the float64 and the float32 bound are counted as ambiguous)
+        f64 = case["box_dtype"] == "f8"
+        et = 64 * EPS32
+        sin_min = min(math.sin(al), math.sin(be), math.sin(ga), 0.2)
+        _cmp(o, got[:3], [la, lb, lc], et * max(la, lb, lc), "unitcell_from_vectors_textbook", "lengths of a rotated box", soft=1e-9 * max(la, lb, lc) if f64 else None)
+        _cmp(o, got[3:], [al, be, ga], et / sin_min * 8, "unitcell_from_vectors_textbook", "angles of a rotated box", soft=1e-9 / sin_min * 8 if f64 else None)
         vol = struc.box_volume(b.given)
         want_vol = abs(float(np.dot(b.b[0], np.cross(b.b[1], b.b[2]))))
-        _cmp(o, vol, want_vol, (64 * EPS32 * b.cond if case["box_dtype"] == "f4" else 1e-9) * want_vol, "box_volume", "box_volume")
+        _cmp(o, vol, want_vol, 64 * EPS32 * b.cond * want_vol, "box_volume", "box_volume", soft=1e-9 * want_vol if f64 else None)
         dots = [abs(float(np.dot(b.b[i], b.b[k]))) for i, k in ((0, 1), (0, 2), (1, 2))]
-        # documented threshold 1e-6 on the dot products, which biotite evaluates in the
-        # dtype of the box (error <= ~eps32 * L^2 for a float32 box)
-        ferr = 16 * (EPS32 if case["box_dtype"] == "f4" else 4e-16) * b.L**2
+        # documented threshold 1e-6 on the dot products, which biotite may evaluate in float32
+        # (error <= ~eps32 * L^2) whatever the dtype of the given box
+        ferr = 16 * EPS32 * b.L**2
         if max(dots) + ferr < 1e-6:
             o.check(bool(struc.is_orthogonal(b.given)), "is_orthogonal", "orthogonal box not recognised")
         elif max(dots) > 1e-6 + ferr:
@@ -793,8 +945,11 @@ def run_boxconv(case):
     coords = c if stack else c[0]
     box = _given_box(case, boxes)
     # linalg.inv of a float32 box is a float32 matrix: float64 accuracy only if both are float64
+    # (and coordinates / boxes of structures are float32 by design: float64 accuracy is never
+    # demanded, results beyond the float64 bound are counted as ambiguous)
     both64 = case["coord_dtype"] == "f8" and case["box_dtype"] == "f8"
-    eps = 4e-16 if both64 else EPS32
+    eps = EPS32
+    soft_f = (4e-16 / EPS32) if both64 else None
     with np.errstate(all="ignore"):
         f = struc.coord_to_fraction(coords, box)
         back = struc.fraction_to_coord(f, box)
@@ -810,13 +965,15 @@ def run_boxconv(case):
             smag = float(np.abs(x).max(initial=0.0))
             tol = 32 * eps * b.cond * (smag + b.L)
             fj = np.asarray(f[j] if stack else f, dtype=float)
-            _cmp(o, fj @ b.b, x, tol, "fraction_definition", f"coord_to_fraction(x) @ box, model {j}")
-            _cmp(o, (back[j] if stack else back), x, 2 * tol, "fraction_roundtrip", f"fraction_to_coord(coord_to_fraction(x)), model {j}")
+            soft = None if soft_f is None else soft_f * tol
+            soft2 = None if soft_f is None else 2 * soft_f * tol
+            _cmp(o, fj @ b.b, x, tol, "fraction_definition", f"coord_to_fraction(x) @ box, model {j}", soft=soft)
+            _cmp(o, (back[j] if stack else back), x, 2 * tol, "fraction_roundtrip", f"fraction_to_coord(coord_to_fraction(x)), model {j}", soft=soft2)
             mj = np.asarray(moved[j] if stack else moved, dtype=float)
             k, res = b.lattice(mj - x)
-            _cmp(o, res, np.zeros_like(res), 2 * tol, "move_inside_box_by_lattice_vector", f"move_inside_box model {j}")
+            _cmp(o, res, np.zeros_like(res), 2 * tol, "move_inside_box_by_lattice_vector", f"move_inside_box model {j}", soft=soft2)
             out = b.outside(mj)
-            _cmp(o, out, np.zeros_like(out), 2 * tol, "move_inside_box_inside", f"move_inside_box model {j}: distance outside the box")
+            _cmp(o, out, np.zeros_like(out), 2 * tol, "move_inside_box_inside", f"move_inside_box model {j}: distance outside the box", soft=soft2)
             wrapped |= bool((np.abs(k).sum(axis=-1) > 0).any())
     any_tri = any(not b.ortho for b in boxes)
     o.label("triclinic" if any_tri else "orthorhombic", "stack_per_model_boxes" if stack else "single_model")
@@ -825,6 +982,7 @@ def run_boxconv(case):
         o.label("rotated_box")
     if wrapped:
         o.label("moved_by_nonzero_lattice_vector")
+    _box_labels(o, boxes)
     o.mark_nontrivial((any_tri or stack) and wrapped)
     return o
 
@@ -847,11 +1005,12 @@ def st_repeat(tier):
         return {
             "cells": draw(st.lists(st_cell(), min_size=nb, max_size=nb)),
             "box_rot": draw(st_quat()),
+            "box_perm": draw(st_box_perm()),
             "box_dtype": "f4",
             "m": m,
             "n": n,
             "frac": draw(st_vec(m * n * 3, -1.0, 2.0)),
-            "amount": draw(st.sampled_from([2, 1, 0, 2, 1, 3] if big else [2, 1, 0, 2, 1])),
+            "amount": draw(st.sampled_from([2, 1, 0, 2, 1, 3] if big else [2, 1, 0, 2, 1, 2, 1, 0, 2, 1, 3])),
             "explicit_amount": draw(st.booleans()),
             "container": container,
             "bonds": draw(st.lists(st.lists(st.integers(0, 4), min_size=2, max_size=2), max_size=3)),
@@ -874,23 +1033,42 @@ def run_repeat(case):
     copies = (2 * amount + 1) ** 3
     want_idx = np.tile(np.arange(n), copies)
     atoms = None
+    o.label(case["container"], f"amount={amount}", "stack" if stack else "single_model")
     if case["container"] == "coord":
-        if amount == 1 and not case["explicit_amount"]:
-            rep, ind = struc.repeat_box_coord(coords, box)
-        else:
-            rep, ind = struc.repeat_box_coord(coords, box, amount)
+
+        def call():
+            if amount == 1 and not case["explicit_amount"]:
+                return struc.repeat_box_coord(coords, box)
+            return struc.repeat_box_coord(coords, box, amount)
     else:
         bonds = sorted({(min(i % n, j % n), max(i % n, j % n)) for i, j in case["bonds"] if i % n != j % n})
         atoms = _atoms(coords, box=box, bonds=bonds)
-        if amount == 1 and not case["explicit_amount"]:
-            rep_atoms, ind = struc.repeat_box(atoms)
-        else:
-            rep_atoms, ind = struc.repeat_box(atoms, amount)
+
+        def call():
+            if amount == 1 and not case["explicit_amount"]:
+                return struc.repeat_box(atoms)
+            return struc.repeat_box(atoms, amount)
+
+    if amount == 0:
+        # "the amount of boxes that are created in each direction": 0 gives (1 + 2*0)^3 = 1 copy
+        # by the documented formula; refusing it (any error) is just as legitimate
+        try:
+            out = call()
+        except Exception:
+            o.label("amount=0:refused")
+            return o
+        o.label("amount=0:one_copy")
+    else:
+        out = call()
+    if atoms is None:
+        rep, ind = out
+    else:
+        rep_atoms, ind = out
         if not o.check(type(rep_atoms) is type(atoms), "repeat_box_type", f"returned {type(rep_atoms).__name__}"):
             return o
         rep = rep_atoms.coord
-    o.label(case["container"], f"amount={amount}", "stack" if stack else "single_model")
     o.label("triclinic" if any(not b.ortho for b in boxes) else "orthorhombic")
+    _box_labels(o, boxes)
     o.mark_nontrivial(amount != 1 or (stack and len(boxes) > 1))
 
     rep = np.asarray(rep)
@@ -918,12 +1096,24 @@ def run_repeat(case):
     o.check(seen[0] == (0, 0, 0), "repeat_original_first", f"first block translated by {seen[0]}")
     o.check(sorted(seen) == want_set, "repeat_all_adjacent_boxes_once", lambda: f"lattice translations {sorted(seen)} != all of {{-a..a}}^3")
     if atoms is not None:
+        # "duplicates of [the atoms]", with indices documented as tiled: the annotations of copy
+        # k are those of the original; that the bonds are duplicated with the atoms is not
+        # written down for repeat_box() nor repeat() (by analogy: a duplicate of a bonded atom)
         for cat in ("chain_id", "res_id", "res_name", "atom_name", "element"):
             o.check_array_eq(rep_atoms.get_annotation(cat), np.tile(atoms.get_annotation(cat), copies), "repeat_annotations_tiled", cat)
-        o.check_array_eq(np.asarray(rep_atoms.box), np.asarray(atoms.box), "repeat_keeps_box", "box")
+        # box of the result: not documented.  Accepted: the box of the input (today) or the
+        # super cell (2a+1) x box that the repeated atoms fill
+        rb = None if rep_atoms.box is None else np.asarray(rep_atoms.box, dtype=float)
+        ab = np.asarray(atoms.box, dtype=float)
+        if rb is not None and rb.shape == ab.shape and np.array_equal(rb, ab):
+            o.label("repeat_box_attr:kept")
+        elif rb is not None and rb.shape == ab.shape and amount != 0 and bool((np.abs(rb - (2 * amount + 1) * ab) <= 4 * EPS32 * (2 * amount + 1) * np.abs(ab).max()).all()):
+            o.label("repeat_box_attr:super_cell")
+        else:
+            o.fail("repeat_box_attribute", f"box of the repeated structure {None if rb is None else rb.tolist()} is neither the input box nor (2*amount+1) x the input box {ab.tolist()}")
         want_b = sorted((i + k * n, j + k * n) for k in range(copies) for i, j in bonds)
         got_b = sorted((int(min(i, j)), int(max(i, j))) for i, j, _ in rep_atoms.bonds.as_array())
-        o.check(got_b == want_b, "repeat_bonds_tiled", lambda: f"bonds {got_b[:12]}... expected {want_b[:12]}...")
+        o.check(got_b == want_b, "repeat_bonds_tiled", lambda: f"(undocumented, by analogy to the atoms) bonds {got_b[:12]}... expected {want_b[:12]}...")
         o.check_array_eq(atoms.coord, coords, "repeat_does_not_mutate", "input coordinates")
     return o
 
@@ -955,16 +1145,20 @@ def st_remove_pbc(tier):
         m = draw(st.sampled_from([1, 1, 2, 3]))
         mols = draw(st.lists(st_mol(), min_size=1, max_size=4 if big else 3))
         total = sum(x["n"] for x in mols)
-        limit = 0.45 if findings.is_open(F1) else draw(st.sampled_from([None, 0.45]))
+        use_bonds = draw(st.sampled_from([True, True, False]))
+        # without a BondList remove_pbc works per chain along the array order, which is only
+        # documented for array neighbours closer than half the box: always limited there
+        limit = 0.45 if (findings.is_open(F1) or not use_bonds) else draw(st.sampled_from([None, 0.45]))
         return {
             "cells": draw(st.lists(st_cell(), min_size=m, max_size=m)),
             "box_rot": draw(st_quat()),
-            "box_dtype": draw(st.sampled_from(["f4", "f4", "f8"])),
+            "box_perm": draw(st_box_perm()),
+            "box_dtype": draw(st.sampled_from(["f4", "f4", "f8"])),  # of the box given to remove_pbc_from_coord
             "m": m,
             "mols": mols,
             "merge": draw(st.lists(st.integers(0, 5), min_size=total, max_size=total)),
             "interleave": draw(st.booleans()),
-            "use_bonds": draw(st.sampled_from([True, True, False])),
+            "use_bonds": use_bonds,
             "wrap": draw(st.sampled_from(["random", "random", "inside"])),
             "model_seed": draw(st.integers(0, 2**31 - 1)),
             "select": draw(st.one_of(st.none(), st.lists(st.booleans(), min_size=len(mols), max_size=len(mols)))),
@@ -1063,17 +1257,45 @@ def _pbc_build(case, boxes):
     return true, wrapped.astype(np.float32), shifts, bonds, layout, positions, narrowed, long_consec
 
 
+def _partial_run(mol, part, nq):
+    """(first, count) of the run of molecule-internal atom numbers that is selected.
+
+    The run is always connected through bonds between *selected* atoms: any run of a path,
+    an arc of a ring, and a prefix of a tree (the parent of atom i is an atom < i).  An
+    arbitrary run of a tree may consist of several pieces hanging on unselected atoms, for
+    which neither the property nor the docstring says how they end up relative to each other."""
+    first = part[0] % nq
+    if mol["kind"] == "tree":
+        first = 0
+    count = 1 + part[1] % (nq - first)
+    return first, count
+
+
 def run_remove_pbc(case):
+    import warnings
+
     import biotite.structure as struc
 
     o = Outcome()
-    boxes = _boxes(case)
     m = case["m"]
     stack = m > 1
+    # the box reaches remove_pbc() through the box attribute, which is always float32; the
+    # box of the case (float32 or float64) is handed to remove_pbc_from_coord() directly
+    boxes = [Box(c, case["box_rot"], "f4", case.get("box_perm")) for c in case["cells"]]
+    boxes_arg = _boxes(case)
+    if not case["use_bonds"] and case["consec_limit"] is None:
+        # per-chain reassembly follows the array order (documented for array neighbours
+        # closer than half the box): outside that range nothing is promised
+        case = dict(case, consec_limit=0.45)
+        limited_for_f1 = False
+    else:
+        limited_for_f1 = True
     true, w32, shifts, bonds, layout, positions, narrowed, long_consec = _pbc_build(case, boxes)
-    if narrowed:
+    if narrowed and limited_for_f1 and findings.is_open(F1):
         o.exclude(F1)
         o.label("narrowed_" + F1)
+    elif narrowed:
+        o.label("array_neighbours_limited")
     if long_consec:
         o.label("array_neighbours_beyond_half_box")
     ntot = len(layout)
@@ -1083,6 +1305,7 @@ def run_remove_pbc(case):
     atoms.chain_id[:] = [chr(ord("A") + mi) for mi in layout]
     sel = None
     selected = [True] * len(case["mols"])
+    partial = [False] * len(case["mols"])
     chosen = [list(p) for p in positions]  # per molecule: the array positions that are to be sanitized
     if case["select"] is not None:
         selected = list(case["select"])
@@ -1091,16 +1314,17 @@ def run_remove_pbc(case):
             if part is None or not selected[q]:
                 continue
             nq = len(positions[q])
-            first = part[0] % nq
-            count = 1 + part[1] % (nq - first)
+            first, count = _partial_run(case["mols"][q], part, nq)
             if count < nq:
-                o.label("molecule_selected_in_part")
+                partial[q] = True
+                o.label("molecule_selected_in_part", "partial_" + case["mols"][q]["kind"])
             chosen[q] = positions[q][first : first + count]
             sel[positions[q]] = False
             sel[chosen[q]] = True
     in_sel = np.ones(ntot, dtype=bool) if sel is None else sel
     before = atoms.coord.copy()
-    with np.errstate(all="ignore"):
+    with np.errstate(all="ignore"), warnings.catch_warnings():
+        warnings.simplefilter("ignore")  # "Mean of empty slice" for a molecule without selected atoms
         res = struc.remove_pbc(atoms) if sel is None else struc.remove_pbc(atoms, sel)
     o.check_array_eq(atoms.coord, before, "remove_pbc_does_not_mutate", "input coordinates")
     if not o.check(type(res) is type(atoms) and res.coord.shape == coords.shape, "remove_pbc_shape", f"{type(res).__name__} {getattr(res, 'coord', np.zeros(0)).shape}"):
@@ -1124,12 +1348,18 @@ def run_remove_pbc(case):
                 continue
             if len({tuple(s) for s in shifts[j, pos]}) > 1:
                 segmented = True
+            # the chosen atoms are connected through bonds between chosen atoms, every bond is
+            # shorter than a quarter of the smallest height: "bonded atoms within minimum-image
+            # distance" is the same as "one periodic image of the unwrapped geometry"
             kk, rr = b.lattice(r[pos] - true[j, pos])
             _cmp(o, rr, np.zeros(len(pos)), tol, "remove_pbc_restores_geometry", f"molecule {q} ({mol['kind']}) model {j}: residual to unwrapped geometry")
             if len({tuple(int(v) for v in row) for row in kk}) != 1:
                 o.fail("remove_pbc_restores_geometry", f"molecule {q} ({mol['kind']}, {len(pos)} atoms) model {j}: atoms end in different periodic images {sorted({tuple(int(v) for v in row) for row in kk})}")
-            cen = r[pos].mean(axis=0)
-            _cmp(o, b.outside(cen), 0.0, tol, "remove_pbc_centroid_in_box", f"molecule {q} model {j}: centroid {cen} outside the box by")
+            if not partial[q]:
+                # docstring: "the centroid of each molecule is moved into the dimensions of the
+                # box"; which centroid that is for a molecule selected in part is not stated
+                cen = r[pos].mean(axis=0)
+                _cmp(o, b.outside(cen), 0.0, tol, "remove_pbc_centroid_in_box", f"molecule {q} model {j}: centroid {cen} outside the box by")
         for a, c_ in bonds:
             if not (in_sel[a] and in_sel[c_]):
                 continue
@@ -1144,9 +1374,11 @@ def run_remove_pbc(case):
     if case["consec_limit"] is not None:
         consec0 = min(consec0, case["consec_limit"])
     if consec0 <= 0.45:
+        o.label("from_coord_checked")
         sub = w32[:, pos0] if stack else w32[0][pos0]
+        box_arg = np.stack([b.given for b in boxes_arg]) if stack else boxes_arg[0].given
         with np.errstate(all="ignore"):
-            rc = np.asarray(struc.remove_pbc_from_coord(sub, box))
+            rc = np.asarray(struc.remove_pbc_from_coord(sub, box_arg))
         if o.check(rc.shape == sub.shape, "remove_pbc_shape", f"remove_pbc_from_coord shape {rc.shape}"):
             for j in range(m):
                 b = boxes[j]
@@ -1160,6 +1392,7 @@ def run_remove_pbc(case):
     any_tri = any(not b.ortho for b in boxes)
     o.label("triclinic" if any_tri else "orthorhombic", "stack_per_model_boxes" if stack else "single_model")
     o.label("bonds" if case["use_bonds"] else "chains_only", "wrap_" + case["wrap"])
+    o.label("from_coord_box_" + case["box_dtype"])
     for mol in case["mols"]:
         o.label("mol_" + mol["kind"])
     if segmented:
@@ -1168,6 +1401,7 @@ def run_remove_pbc(case):
         o.label("interleaved")
     if sel is not None:
         o.label("selection")
+    _box_labels(o, boxes)
     o.mark_nontrivial(segmented and (any_tri or stack))
     return o
 
@@ -1200,7 +1434,7 @@ def st_transform(tier):
     @st.composite
     def gen(draw):
         op = draw(st.sampled_from(_OPS))
-        rank = 2 if op == "orient" else draw(st.sampled_from([1, 2, 2, 3]))
+        rank = 2 if op == "orient" else draw(st.sampled_from([1, 2, 2, 3, 3] if op == "translate" else [1, 2, 2, 3]))
         m = draw(st.integers(1, 3)) if rank == 3 else 1
         n = draw(st.integers(1, 8 if big else 5))
         return {
@@ -1215,7 +1449,7 @@ def st_transform(tier):
             "axis": draw(st_vec(3)),
             "angle": draw(st.floats(-7.0, 7.0, allow_nan=False)),
             "support": draw(st.one_of(st.none(), st_vec(3, -2.0, 2.0))),
-            "vec_rank": draw(st.integers(1, 3)),
+            "vec_rank": draw(st.sampled_from([1, 2, 3, 3])),
             "vec": draw(st_vec(3, -2.0, 2.0)),
             "vec_seed": draw(st.integers(0, 2**31 - 1)),
             "origin_dir": draw(st_vec(3)),
@@ -1310,8 +1544,19 @@ def run_transform(case):
     elif op == "rotate_about_axis":
         axis32 = np.array(case["axis"], dtype=np.float32).astype(float)
         if np.linalg.norm(axis32) < 1e-3:
-            o.expect_raises(ValueError, lambda: struc.rotate_about_axis(src, [0.0, 0.0, 0.0], case["angle"]), "zero_axis_rejected", "rotate_about_axis with a zero axis")
+            # no rotation is defined by a zero axis: outside the quantifier ("proper rotations"),
+            # and no docstring says what happens.  The call is made (it must not kill the
+            # process); an error of any type or a returned array (NaN, unchanged, ...) are
+            # recorded, neither is judged
             o.label("zero_axis")
+            o.invalid = True
+            try:
+                with np.errstate(all="ignore"):
+                    struc.rotate_about_axis(src, [0.0, 0.0, 0.0], case["angle"])
+            except Exception:
+                o.label("zero_axis:raises")
+            else:
+                o.label("zero_axis:returns")
             return o
         sup = None if case["support"] is None else np.array(case["support"], dtype=np.float32) * np.float32(scale)
         res = struc.rotate_about_axis(src, case["axis"], case["angle"], None if sup is None else [float(t) for t in sup])
@@ -1387,6 +1632,9 @@ def st_backbone(tier):
             "missing": draw(st.lists(st.tuples(st.integers(0, k - 1), st.sampled_from(["N", "CA", "C"])), max_size=2)),
             "cb": draw(st.lists(st.booleans(), min_size=k, max_size=k)),
             "res_id_start": draw(st.integers(-3, 50)),
+            # water molecules (residues without any backbone atom) after the peptide
+            "waters": draw(st.sampled_from([0, 0, 0, 1, 3])),
+            "water_seed": draw(st.integers(0, 2**31 - 1)),
         }
 
     return gen()
@@ -1412,6 +1660,17 @@ def run_backbone(case):
             resid.append(case["res_id_start"] + r)
             rows.append((r, ai))
     c = np.stack([xyz[:, r, ai] for r, ai in rows], axis=1)  # (m, natoms, 3)
+    # (not together with a missing CA: the two accepted shapes of either could not be told apart)
+    nw = 0 if any(a == "CA" for _, a in missing) else case.get("waters", 0)
+    if nw:
+        wat = np.random.default_rng(case["water_seed"]).uniform(-8.0, 8.0, size=(m, nw, 3)).astype(np.float32)
+        c = np.concatenate([c, wat], axis=1)
+        for i in range(nw):
+            names.append("O")
+            resn.append("HOH")
+            resid.append(case["res_id_start"] + k + i)
+            rows.append(None)
+        o.label("waters_after_peptide")
     if m == 1:
         atoms = struc.AtomArray(len(rows))
         atoms.coord = c[0]
@@ -1446,13 +1705,32 @@ def run_backbone(case):
             want[key].append(d)
             tols[key].append(dihedral_tol(s1, s2, _norm(b1), _norm(b2), _norm(b3)))
     defined = 0
+    # "for every CA atom": one value per amino acid residue.  Where a CA itself is missing the
+    # docstring can be read both ways ("NaN for missing backbone atoms" = an all-NaN entry for
+    # that residue, or no entry at all); both are accepted, the other entries are the same
+    no_ca = sorted({r for r, a in missing if a == "CA"})
+    with_ca = [r for r in range(k) if r not in no_ca]
     for key, got in (("phi", phi), ("psi", psi), ("omega", omg)):
         w = np.stack(want[key], axis=1)  # (m, k)
         t = np.stack(tols[key], axis=1)
+        got = np.asarray(got, dtype=float)
+        if nw and got.ndim >= 1:
+            # residues without backbone: an all-NaN entry each (one value per residue, today) or
+            # no entry ("for every CA atom")
+            if got.shape[-1] == k + nw:
+                o.check(bool(np.isnan(got[..., got.shape[-1] - nw :]).all()), "backbone_nan_where_undefined", f"{key}: values for water residues {got.tolist()}")
+                got = got[..., : got.shape[-1] - nw]
+                o.label("waters:nan_entry")
+            else:
+                o.label("waters:no_entry")
+        if no_ca and got.shape[-1:] == (len(with_ca),) and got.shape != (w[0] if m == 1 else w).shape:
+            w, t = w[:, with_ca], t[:, with_ca]
+            o.label("missing_CA:no_entry")
+        elif no_ca:
+            o.label("missing_CA:nan_entry")
         if m == 1:
             w, t = w[0], t[0]
-        got = np.asarray(got, dtype=float)
-        if not o.check(got.shape == w.shape, "backbone_shape", f"{key}: shape {got.shape}, expected {w.shape} (one per residue)"):
+        if not o.check(got.shape == w.shape, "backbone_shape", f"{key}: shape {got.shape}, expected {w.shape} (one per amino acid residue / CA atom)"):
             continue
         nan_want = np.isnan(w)
         o.check(bool(np.isnan(got[nan_want]).all()), "backbone_nan_where_undefined", f"{key}: got {got.tolist()} but undefined at {nan_want.tolist()}")
@@ -1479,8 +1757,9 @@ def st_index_large(tier):
     return st.fixed_dictionaries(
         {
             "n_atoms": st.integers(5, 40),
-            "depth": st.sampled_from([0, 2, 3]),
-            "n_idx": st.sampled_from([65536, 65537, 70000, 131072, 140001, 3000]),
+            # (the simplest example, which every shard runs first, is a stack with 65537 tuples)
+            "depth": st.sampled_from([2, 0, 3]),
+            "n_idx": st.sampled_from([65537, 65536, 70000, 131072, 140001, 3000]),
             "seed": st.integers(0, 2**31 - 1),
         }
     )
@@ -1497,22 +1776,43 @@ def run_index_large(case):
     idx = rng.integers(0, n, (k, 4))
     o.label("stack" if m else "single", f"tuples={k}")
     c64 = coord.astype(np.float64)
-    a, b = c64[..., idx[:, 0], :], c64[..., idx[:, 1], :]
-    want = np.sqrt(((a - b) ** 2).sum(axis=-1))
+    cols = [c64[..., idx[:, i], :] for i in range(4)]
+    ref = _measure_ref(cols)
+    want = ref["dist"]
     got = np.asarray(struc.index_distance(coord, idx[:, :2]))
     if o.check_eq(got.shape, want.shape, "index_equals_plain", f"index_distance shape for {k} index pairs on coordinates {shape}"):
         bad = np.abs(got - want) > 8 * EPS32 * want + 1e-5
         o.check(not bad.any(), "index_equals_plain", lambda: f"index_distance differs from the formula at {np.argwhere(bad)[:3].tolist()}")
-    plain = np.asarray(struc.distance(coord[..., idx[:, 0], :], coord[..., idx[:, 1], :]))
-    o.check(np.array_equal(np.asarray(got), plain), "index_equals_plain", "index_distance != distance on the gathered coordinates")
-    d = np.asarray(struc.index_displacement(coord, idx[:, :2]))
-    o.check_eq(d.shape, want.shape + (3,), "index_equals_plain", "index_displacement shape")
-    ang = np.asarray(struc.index_angle(coord, idx[:, :3]))
-    o.check_eq(ang.shape, want.shape, "index_equals_plain", "index_angle shape")
+    # against the coordinate based functions on the gathered coordinates: two evaluations of the
+    # same quantity, each with its own float32 rounding (they need not share their code)
+    g32 = [coord[..., idx[:, i], :] for i in range(4)]
     with np.errstate(all="ignore"):
-        pa = np.asarray(struc.angle(coord[..., idx[:, 0], :], coord[..., idx[:, 1], :], coord[..., idx[:, 2], :]))
-    if ang.shape == pa.shape:
-        o.check(np.array_equal(ang, pa, equal_nan=True), "index_equals_plain", "index_angle != angle on the gathered coordinates")
+        plain = struc.distance(g32[0], g32[1])
+        _cmp(o, got, plain, 8 * EPS32 * want + TINY, "index_equals_plain", "index_distance vs distance on the gathered coordinates")
+        d = struc.index_displacement(coord, idx[:, :2])
+        _cmp(o, d, ref["disp"], 2 * EPS32 * np.abs(ref["disp"]) + TINY, "index_equals_plain", "index_displacement vs the difference of the gathered coordinates")
+        a_tol = angle_tol(*ref["angle_tol"])
+        ang = struc.index_angle(coord, idx[:, :3])
+        _cmp(o, ang, ref["angle"], a_tol, "index_equals_plain", "index_angle vs formula")
+        _cmp(o, ang, struc.angle(g32[0], g32[1], g32[2]), 2 * a_tol, "index_equals_plain", "index_angle vs angle on the gathered coordinates")
+        d_tol = dihedral_tol(*ref["dihedral_tol"])
+        dih = struc.index_dihedral(coord, idx)
+        _cmp(o, dih, ref["dihedral"], d_tol, "index_equals_plain", "index_dihedral vs formula", wrap=True)
+        # periodic branch with a long index array: orthorhombic box (shortest image always stated)
+        lens = np.array([15.0, 22.0, 31.0]) * (1.0 + (case["seed"] % 7) / 7.0)
+        box = np.diag(lens).astype(np.float32)
+        b64 = box.astype(np.float64)
+        pd = struc.index_displacement(coord, idx[:, :2], periodic=True, box=box)
+        plain_d = cols[1] - cols[0]
+        want_pd = plain_d - np.round(plain_d / lens) * lens
+        ptol = 32 * EPS32 * (float(np.abs(c64).max()) + float(lens.max()))
+        pd = np.asarray(pd, dtype=float)
+        if o.check_eq(pd.shape, want_pd.shape, "index_equals_plain_periodic", "index_displacement(periodic=True) shape"):
+            # half-box ties aside (either image), the vector is the wrapped difference
+            resid = (pd - want_pd) @ np.linalg.inv(b64)
+            lat = np.abs(resid - np.round(resid)).max(axis=-1) * float(lens.max())
+            _cmp(o, lat, np.zeros_like(lat), ptol, "index_equals_plain_periodic", "index_displacement(periodic=True) is not a lattice vector away from the difference")
+            _cmp(o, _norm(pd), _norm(want_pd), ptol, "index_equals_plain_periodic", "|index_displacement(periodic=True)| vs shortest image")
     o.mark_nontrivial(k > 65536)
     return o
 
